@@ -91,6 +91,12 @@ def jobs_for(tier, rng):
         jobs.append({"mdp": m, "kind": "VI", "gamma": GAMMAS[k % 3], "eps": [1, 6], "test": "span", "calls": [1],
                      "mbs": rng.choice([1024, 1024, 500]),
                      "injects": [{"v": gen.rand_values(rng, m["ns"], vmax=9)} for _ in range(2)], "tag": f"large{k}"})
+    # thousands of DENSE states (random gadgets, judged in full - no reduction)
+    for k, ng in enumerate([2500] if tier == "quick" else [2500, 6000, 12000]):
+        m = gen.union(rng, ng, PD=rng.choice([2, 4]), na=2, ne=2, rmax=3, v0max=2, plain=k % 2 == 0)
+        jobs.append({"mdp": m, "kind": "VI", "gamma": GAMMAS[k % 3], "eps": [1, 6], "test": "span", "calls": [2],
+                     "mbs": rng.choice([1024, 700]), "injects": [{"v": gen.rand_values(rng, m["ns"], vmax=9)}],
+                     "tag": f"dense{ng}", "min_sweeps": 2})
     # tens of thousands of states (many batches per device); the trace is reduced exactly (solver_worker.quotient)
     for N in ([20100] if tier == "quick" else [20100, 33000, 70001]):
         jobs.append({"mdp": gen.corridors(rng, N, [3, 5, 2]), "kind": "VI", "gamma": [1, 2], "eps": [1, 4], "test": "span",
